@@ -116,6 +116,28 @@ class Engine:
 
     def stmt(self, st, states):
         out = Out()
+        if hasattr(self.c, "summarize") and isinstance(st, (ast.For, ast.While, ast.If, ast.With, ast.Try)):
+            rest = set()
+            for s in states:
+                r = self.c.summarize(st, s)
+                if r is None:
+                    rest.add(s)
+                else:
+                    self.visits += 1
+                    for tag, es in self.c.raises(st, s) if getattr(self.c, "summary_raises", False) else []:
+                        out.exc.add((es, tag, st))
+                    out.normal |= set(r)
+            if not rest:
+                return out
+            states = rest
+            o2 = self._stmt(st, states)
+            o2.normal |= out.normal
+            o2.exc |= out.exc
+            return o2
+        return self._stmt(st, states)
+
+    def _stmt(self, st, states):
+        out = Out()
         if isinstance(st, (ast.Assign, ast.AugAssign, ast.AnnAssign, ast.Expr, ast.Delete, ast.Assert, ast.Pass,
                            ast.Import, ast.ImportFrom, ast.Global, ast.Nonlocal)):
             self._simple(st, states, out)
@@ -233,10 +255,11 @@ class Engine:
                         # a bare `raise` / `raise e` of the caught name re-raises the caught exception
                         fixed = set()
                         for (s2, t2, n2) in oh.exc:
+                            # keep the ORIGIN (the statement of the try body that raised) as the reported node
                             if t2 == "reraise" or (h.name and t2 == "reraise:" + h.name):
-                                fixed.add((s2, tag, n2))
+                                fixed.add((s2, tag, node))
                             else:
-                                fixed.add((s2, t2, n2))
+                                fixed.add((s2, t2, node))
                         oh.exc = fixed
                         after.absorb_abrupt(oh)
                         after.normal |= oh.normal
